@@ -9,5 +9,6 @@ for p in C01 C02 C03 C04 C05 C06 C07 C08 C09 C10 C11 C12 C13 C18 C19 C20; do
 done
 out=$(./check selftest --tier thorough 2>&1); e=$?
 echo "== selftest exit=$e :: $(echo "$out" | tail -1)"
+echo "$out" | grep -v identical | head -20
 [ $e -ne 0 ] && rc=1
 exit $rc
